@@ -11,6 +11,7 @@ import (
 	"hash/fnv"
 	"os"
 	"path/filepath"
+	"runtime"
 	"sort"
 	"strconv"
 
@@ -70,6 +71,7 @@ type Stats struct {
 }
 
 func NewStats(property, part string) *Stats {
+	part += os.Getenv("VERIF_PART_SUFFIX") // "-386": the same part executed by the 32-bit build
 	return &Stats{Property: property, Part: part, nontriv: map[uint64]struct{}{}, classes: map[string]int64{},
 		excluded: map[string]int64{}, samples: map[string][]any{}, extra: map[string]any{}, sets: map[string]map[string]struct{}{}}
 }
@@ -224,6 +226,7 @@ type Replay struct {
 	Check    string          `json:"check"`
 	Case     json.RawMessage `json:"case"`
 	Observed string          `json:"observed"`
+	Arch     string          `json:"arch,omitempty"` // set when the failure was found by a build other than amd64 (the replay uses the same build)
 	// Before: cases executed (outcome ignored) before the case when the failure depends on the calls that preceded it
 	// (pairs of contents with equal digests run back to back)
 	Before []ReplayStep `json:"before,omitempty"`
@@ -289,6 +292,9 @@ func failf(t TB, property, check string, c any, format string, args ...any) {
 				msg = msg[:2000] + "…"
 			}
 			rp := Replay{Property: property, Check: check, Case: raw, Observed: msg}
+			if runtime.GOARCH != "amd64" {
+				rp.Arch = runtime.GOARCH
+			}
 			replayMu.Lock()
 			if preludeOn {
 				for _, st := range preludeSteps {
